@@ -358,6 +358,16 @@ def select_targets(ctx):
 
 
 def run(ctx):
+    if ctx.only == {"daemon"}:
+        from props import c20_daemon
+        c20_daemon.run_daemon_part(ctx)
+        return
+    if ctx.only is None:
+        # sanitised qmail-send/qmail-clean/qmail-queue in driven daemon histories under every single I/O failure (props/c20_daemon.py)
+        from props import c20_daemon
+        c20_daemon.run_daemon_part(ctx)
+        if ctx.stats.violations:
+            return
     if ctx.only is None or ctx.only != {"sessions"}:
         if ctx.only is not None:
             ctx.only = ctx.only - {"sessions"}
@@ -493,6 +503,9 @@ def whole_program_sessions(ctx):
 
 
 def replay(ctx, path):
+    if path.endswith(".json"):
+        from props import c20_daemon
+        return c20_daemon.replay(ctx, path)
     name = os.path.basename(path).split("-")[0]
     ts = [t for t in TARGETS if t.name == name]
     if not ts:
